@@ -2047,6 +2047,20 @@ func comparedCharsIn(fn *ssa.Function, out map[rune]bool) {
 						out[[]rune(s)[0]] = true
 					}
 				}
+			case *ssa.IndexAddr: // a lookup in a package-level table of characters: var ends = [256]bool{' ': true, …}
+				if g, ok := x.X.(*ssa.Global); ok {
+					for _, r := range globalCharSet(g) {
+						out[r] = true
+					}
+				}
+			case *ssa.Lookup:
+				if ld, ok := x.X.(*ssa.UnOp); ok && ld.Op == token.MUL {
+					if g, ok := ld.X.(*ssa.Global); ok {
+						for _, r := range globalCharSet(g) {
+							out[r] = true
+						}
+					}
+				}
 			case ssa.CallInstruction:
 				switch calleeName(x.Common()) {
 				case "strings.ContainsRune", "strings.IndexByte", "strings.IndexRune", "strings.ContainsAny", "strings.IndexAny", "bytes.IndexByte", "bytes.ContainsRune", "bytes.ContainsAny":
@@ -2064,4 +2078,96 @@ func comparedCharsIn(fn *ssa.Function, out map[rune]bool) {
 			}
 		})
 	})
+}
+
+// globalCharSet: the characters a package-level table holds as `true` — an array of bool indexed by byte, or a
+// map[byte|rune]bool — when the table is filled by its declaration alone (constant indexes, in the package's init) and
+// written nowhere else.
+func globalCharSet(g *ssa.Global) []rune {
+	pt, ok := g.Type().Underlying().(*types.Pointer)
+	if !ok || theProg == nil {
+		return nil
+	}
+	isBool := func(t types.Type) bool {
+		b, ok := t.Underlying().(*types.Basic)
+		return ok && b.Kind() == types.Bool
+	}
+	switch u := pt.Elem().Underlying().(type) {
+	case *types.Array:
+		if !isBool(u.Elem()) {
+			return nil
+		}
+	case *types.Map:
+		kb, ok := u.Key().Underlying().(*types.Basic)
+		if !ok || kb.Info()&types.IsInteger == 0 || !isBool(u.Elem()) {
+			return nil
+		}
+	default:
+		return nil
+	}
+	var out []rune
+	clean := true
+	isTrue := func(v ssa.Value) bool {
+		c, ok := v.(*ssa.Const)
+		return ok && c.Value != nil && c.Value.String() == "true"
+	}
+	for _, fn := range theProg.FuncsAndInits() {
+		isInit := fn.Name() == "init" && fn.Pkg == g.Pkg
+		eachInstr(fn, func(in ssa.Instruction) {
+			switch x := in.(type) {
+			case *ssa.Store:
+				if ia, ok := x.Addr.(*ssa.IndexAddr); ok && ia.X == ssa.Value(g) {
+					k, isC := constInt(ia.Index)
+					if !isInit || !isC {
+						clean = false
+					} else if isTrue(x.Val) && k > 0 {
+						out = append(out, rune(k))
+					}
+				}
+				if x.Addr == ssa.Value(g) {
+					if !isInit {
+						clean = false
+					} else if ld, ok := x.Val.(*ssa.UnOp); ok && ld.Op == token.MUL {
+						// an array literal is built in a local and copied into the variable
+						if al, ok := ld.X.(*ssa.Alloc); ok && al.Referrers() != nil {
+							for _, r := range *al.Referrers() {
+								ia, ok := r.(*ssa.IndexAddr)
+								if !ok || ia.Referrers() == nil {
+									continue
+								}
+								k, isC := constInt(ia.Index)
+								for _, r2 := range *ia.Referrers() {
+									if st, ok := r2.(*ssa.Store); ok && st.Addr == ssa.Value(ia) {
+										if !isC {
+											clean = false
+										} else if isTrue(st.Val) && k > 0 {
+											out = append(out, rune(k))
+										}
+									}
+								}
+							}
+						}
+					} else if mk, ok := x.Val.(*ssa.MakeMap); ok && mk.Referrers() != nil {
+						for _, r := range *mk.Referrers() {
+							if mu, ok := r.(*ssa.MapUpdate); ok {
+								if k, isC := constInt(mu.Key); isC && isTrue(mu.Value) && k > 0 {
+									out = append(out, rune(k))
+								} else if !isC {
+									clean = false
+								}
+							}
+						}
+					}
+				}
+			case *ssa.MapUpdate:
+				if l, ok := x.Map.(*ssa.UnOp); ok && l.X == ssa.Value(g) {
+					clean = false
+				}
+			}
+		})
+	}
+	if !clean {
+		return nil
+	}
+	return out
 }
